@@ -316,6 +316,16 @@ inline void comparePlanWithShadow(Inst& in, const char* where) {
 		W->V("C10", fmt("plan!=appended-minus-removed|%s", in.actualPlan.size() < in.plan.size() ? "lost" : in.actualPlan.size() > in.plan.size() ? "extra" : "changed"), msg);
 		// the library changed the plan on its own outside the plan step (no edit by the harness in between)
 		if (!in.planEditedSinceCompare) W->V("C08", "plan-changed-outside-plan-step", msg);
+		// C07: the same tasks, but a task carries another payload than the one it was given (that is what its request will show)
+		if (in.actualPlan.size() == in.plan.size()) {
+			bool sameShape = true, payloadDiffers = false;
+			for (size_t i = 0; i < in.plan.size(); ++i) {
+				const Task& a = in.actualPlan[i]; const Task& b = in.plan[i];
+				if (a.origin != b.origin || a.dest != b.dest) sameShape = false;
+				else if (!a.same(b)) payloadDiffers = true;
+			}
+			if (sameShape && payloadDiffers) W->V("C07", "plan-task-payload-altered", msg);
+		}
 		in.plan = in.actualPlan;
 	}
 	in.planEditedSinceCompare = false;
@@ -391,6 +401,11 @@ inline void checkControl(TC& c, Inst& in, Method m, uint8_t sid, const void* ev)
 		const int got = machActive == ffsm2::INVALID_STATE_ID ? -1 : machActive;
 		if (got != expect)
 			w.V("C01", fmt("activeStateId-vs-enter-exit-pairing|in=%s", mname(m)), fmt("inside %s of %u the machine reports active state %d, but the state entered most recently without exit is %d; %s", mname(m), sid, got, expect, w.tail().c_str()));
+#if CFG_MANUAL
+		// a manually activated machine says whether it is active at all: false until a state has been entered
+		if (got == expect && in.obj->isActive() != (expect >= 0))
+			w.V("C01", fmt("machine-isActive()-vs-enter-exit-pairing|in=%s", mname(m)), fmt("inside %s of %u machine.isActive() is %d, the state entered most recently without exit is %d; %s", mname(m), sid, int(in.obj->isActive()), expect, w.tail().c_str()));
+#endif
 		// ... and user code observing through the control handed to this callback sees exactly that one state, whichever form it asks in
 		const uint32_t want = expect >= 0 ? 1u << expect : 0u;
 		if (got == expect && (ctlSet != want || ctlSetT != want))
@@ -540,6 +555,10 @@ inline void planAppend(TPlan plan, Inst& in, uint8_t origin, uint8_t dest, bool 
 	if (ok && !expectOk) expect = now; // already reported
 	if (!samePlan(now, expect))
 		w.V("C10", fmt("plan-after-append|%s", ok ? "accepted" : "refused"), fmt("%s: after append(%s)=%d the plan iterates as %s, expected %s; %s", where, t.str().c_str(), int(ok), planStr(now).c_str(), planStr(expect).c_str(), w.tail().c_str()));
+	// C08: the task that will fire is the one the program described (origin, destination, payload), whichever overload it used
+	if (ok && expectOk && now.size() == expect.size() && !now.empty() && !now.back().same(t))
+		w.V("C08", fmt("task-stored-differs-from-task-appended|form=%u|%s", form, withPayload ? "changeWith" : "change"),
+			fmt("%s: appended %s (overload form %u), the plan holds %s in its place; %s", where, t.str().c_str(), form, now.back().str().c_str(), w.tail().c_str()));
 	in.plan = now;
 }
 
@@ -549,17 +568,37 @@ inline void planRemoveAt(TPlan plan, Inst& in, size_t idx, const char* where) {
 	const PlanVec before = in.plan;
 	if (idx >= before.size()) return;
 	w.act(in, ACT_PLAN_REMOVE, static_cast<uint8_t>(idx), 255);
-	// remove through the iterator while iterating; the rest of the iteration must be undisturbed
-	PlanVec seen;
+	// remove through the iterator while iterating; the rest of the iteration must be undisturbed - also when tasks are
+	// appended (0..2 of them) before the iterator moves on: the tasks that were there are still visited, in order (whether
+	// the new ones are visited too is not specified)
+	const unsigned extra = w.ch.mode != Chooser::ENUM ? w.ch.pick({6, 2, 3}) : 0;
+	PlanVec seen, appended;
 	size_t i = 0;
 	for (auto it = plan.begin(); it; ++it, ++i) {
 		seen.push_back(toTask(*it));
-		if (i == idx) LIB(it.remove());
+		if (i == idx) {
+			LIB(it.remove());
+			for (unsigned k = 0; k < extra && before.size() - 1 + appended.size() < cfg::CAP; ++k) {
+				Task t; t.origin = static_cast<uint8_t>(w.ch.draw(N)); t.dest = static_cast<uint8_t>(w.ch.draw(N)); t.hasPay = false; t.tag = 0;
+				bool ok = false;
+				LIB(ok = plan.change(static_cast<StateID>(t.origin), static_cast<StateID>(t.dest)));
+				if (!ok) { w.V("C10", "append-result|refused-with-room|during-iteration", fmt("%s: append after an iterator removal refused with %zu of %u tasks; %s", where, before.size() - 1 + appended.size(), cfg::CAP, w.tail().c_str())); break; }
+				appended.push_back(t);
+				w.stats.add("plan_appends_during_iteration");
+			}
+		}
 		if (i > 300) break;
 	}
-	if (!samePlan(seen, before))
-		w.V("C10", "iteration-disturbed-by-iterator-remove", fmt("%s: iterating %s while removing position %zu visited %s; %s", where, planStr(before).c_str(), idx, planStr(seen).c_str(), w.tail().c_str()));
+	{
+		// 'before' must be a prefix of what was visited; anything after it must be the appended tasks, in order
+		bool ok = seen.size() >= before.size() && seen.size() <= before.size() + appended.size();
+		for (size_t k = 0; ok && k < before.size(); ++k) ok = seen[k].same(before[k]);
+		for (size_t k = before.size(); ok && k < seen.size(); ++k) ok = seen[k].same(appended[k - before.size()]);
+		if (!ok)
+			w.V("C10", "iteration-disturbed-by-iterator-remove", fmt("%s: iterating %s while removing position %zu%s visited %s; %s", where, planStr(before).c_str(), idx, appended.empty() ? "" : " (and appending before moving on)", planStr(seen).c_str(), w.tail().c_str()));
+	}
 	w.notePlanRemove(in, idx);
+	for (const Task& t : appended) w.notePlanAppend(in, t);
 	bool cons = true;
 	const PlanVec now = readPlan(plan, &cons);
 	if (!cons) w.V("C10", "plan-first-last-bool-inconsistent", fmt("%s: after remove first()/last()/bool disagree with iteration %s", where, planStr(now).c_str()));
